@@ -187,9 +187,10 @@ CLAIMED = {
               "!is_const(); in Equation/Prefix the const test dominates every mutating continuation and every "
               "Boxed_Value::assign has a receiver proven undefined or non-const; all Constant nodes built by parser and "
               "optimizer originate from const_var/buildInt/buildFloat/the arithmetic kernel; const return forms, const_var "
-              "and add_global_const box const-qualified referents; data members of const objects are returned const. Not "
-              "decided: the exhaustive sequence space of mutation attempts at run time; shallow constness of Boxed_Value "
-              "handles stored inside const containers (noted in DESIGN.md)."),
+              "and add_global_const box const-qualified referents; data members of const objects are returned const; the "
+              "obligation that a `const Boxed_Value &` result (element of a const Vector/Map) reaches the script as a const "
+              "value fails on the current tree and is a listed known finding with replay (constness of a boxed container "
+              "is shallow). Not decided: the exhaustive sequence space of mutation attempts at run time."),
         technique="who-may-write / check-dominates-use rules, const-cast inventory, value-origin (def-use) analysis over all instantiations",
         ref="DESIGN.md section 4 C07"),
     "C08": dict(
